@@ -319,6 +319,92 @@ Proof.
   replace ((k0 - kcini) * s / t) with ((k0 - kcini) * (s / t)) by (unfold Rdiv; ring). nra.
 Qed.
 
+(* ==================================================================== *)
+(* the argument of root() over a run *)
+
+Lemma cg_upd0 (l : list R) k v : cg (upd l k v) 0 = if (Nat.eqb k 0 && Nat.ltb 0 (length l))%bool then v else cg l 0.
+Proof. unfold cg, get. destruct l as [|x l]; destruct k as [|k]; cbn; reflexivity. Qed.
+
+(* conditions on a day's inputs under which the temperature sums cannot decrease: non-negative time step, and a top soil whose water
+   content and emergence threshold 0.3*(W-WMIN)+WMIN are sane *)
+Definition day_sane (x : dev_in (T:=R)) : Prop :=
+  let sx := di_stage x in
+  0 <= si_dt sx /\ 0 <= si_wg00 sx /\ 0 < 3 / 10 * (si_w0 sx - si_wmin0 sx) + si_wmin0 sx.
+
+Lemma emerge_sum0 (sx : stage_in (T:=R)) k (sum : list R) :
+  0 <= si_dt sx -> 0 <= si_wg00 sx -> 0 < 3 / 10 * (si_w0 sx - si_wmin0 sx) + si_wmin0 sx ->
+  cg sum 0 <= cg (emerge_sum sx k sum) 0.
+Proof.
+  intros Hdt Hwg Hlim. unfold emerge_sum.
+  destruct (Nat.eqb k 0); [|lra].
+  destruct (gtb (si_temp sx) (cg (si_bas sx) 0)) eqn:E; [|lra].
+  apply gtbR in E.
+  assert (Hd : 0 <= si_temp sx - cg (si_bas sx) 0) by lra.
+  destruct (gtb _ _); rewrite cg_upd0; cbn [Nat.eqb andb]; destruct (Nat.ltb 0 (length sum)); try lra; rn.
+  - assert (0 <= (si_temp sx - cg (si_bas sx) 0) * si_dt sx) by (apply Rmult_le_pos; assumption). lra.
+  - assert (0 <= si_wg00 sx / (3 / 10 * (si_w0 sx - si_wmin0 sx) + si_wmin0 sx)).
+    { unfold Rdiv. apply Rmult_le_pos; [assumption | left; apply Rinv_0_lt_compat; assumption]. }
+    assert (0 <= (si_temp sx - cg (si_bas sx) 0) * (si_wg00 sx / (3 / 10 * (si_w0 sx - si_wmin0 sx) + si_wmin0 sx)) * si_dt sx)
+      by (apply Rmult_le_pos; [apply Rmult_le_pos|]; assumption).
+    lra.
+Qed.
+
+Lemma stage_advance_sum0 (sx : stage_in (T:=R)) (s : stage_st (T:=R)) : cg (st_sum (stage_advance sx s)) 0 = cg (st_sum s) 0.
+Proof.
+  unfold stage_advance. destruct (_ && _ && _); [|reflexivity]. cbn [st_sum]. rewrite cg_upd0. reflexivity.
+Qed.
+
+Lemma stage_inc_sum0 (sx : stage_in (T:=R)) (s : stage_st (T:=R)) :
+  0 <= si_fv sx -> 0 <= si_fp sx -> 0 <= si_devprog sx -> 0 <= si_dt sx ->
+  cg (st_sum s) 0 <= cg (st_sum (stage_inc sx s)) 0.
+Proof.
+  intros Hv Hp Hd Ht. unfold stage_inc.
+  destruct (grown _ _); cbn [andb]; [|lra].
+  destruct (geb (si_temp sx) (cg (si_bas sx) (st_k s))) eqn:E; [|lra].
+  cbn [st_sum]. rewrite cg_upd0.
+  destruct (Nat.eqb (st_k s) 0) eqn:K; cbn [andb]; [|lra].
+  destruct (Nat.ltb 0 (length (st_sum s))); [|lra].
+  apply Nat.eqb_eq in K. rewrite K in *. unfold geb in E. apply lebR in E. rsimp.
+  assert (0 <= si_temp sx - cg (si_bas sx) 0) by lra.
+  assert (0 <= (si_temp sx - cg (si_bas sx) 0) * si_fv sx * si_fp sx * si_devprog sx * si_dt sx)
+    by (repeat (apply Rmult_le_pos; [|assumption]); assumption).
+  lra.
+Qed.
+
+(* one day: the argument of root() - phyllochron sum + emergence sum - does not decrease *)
+Lemma dev_step_tempsum (x : dev_in (T:=R)) (s : dev_st (T:=R)) : day_sane x ->
+  st_phyllo (ds_stage s) + cg (st_sum (ds_stage s)) 0 <=
+  st_phyllo (ds_stage (dev_step x s)) + cg (st_sum (ds_stage (dev_step x s))) 0.
+Proof.
+  intros (Hdt & Hwg & Hlim).
+  destruct (dev_step_mono x s Hdt) as [_ Hph].
+  destruct (dev_step_refines x s Hdt) as (fv & fp & dp & Hv & Hp & Hd & E & _).
+  assert (Hs : cg (st_sum (ds_stage s)) 0 <= cg (st_sum (ds_stage (dev_step x s))) 0).
+  { rewrite E. unfold stage_step.
+    match goal with |- context [stage_advance ?a ?b] => set (s1 := b) end.
+    eapply Rle_trans; [|apply stage_inc_sum0; cbn [with_factors si_fv si_fp si_devprog si_dt]; lra].
+    rewrite stage_advance_sum0. subst s1. cbn [st_sum].
+    apply (emerge_sum0 (with_factors (di_stage x) fv fp dp)); cbn [with_factors si_dt si_wg00 si_w0 si_wmin0]; assumption. }
+  lra.
+Qed.
+
+Lemma dev_run_tempsum (xs : list (dev_in (T:=R))) (s : dev_st (T:=R)) : Forall day_sane xs ->
+  st_phyllo (ds_stage s) + cg (st_sum (ds_stage s)) 0 <=
+  st_phyllo (ds_stage (dev_run xs s)) + cg (st_sum (ds_stage (dev_run xs s))) 0.
+Proof.
+  revert s; induction xs as [|x r IH]; intros s H; cbn [dev_run]; [lra|].
+  inversion H as [|? ? Hx Hr]; subst.
+  eapply Rle_trans; [apply (dev_step_tempsum x s Hx) | apply IH; exact Hr].
+Qed.
+
+(* ... hence, with the true power and exponential, the potential rooting depth never decreases over any run of sane days *)
+Lemma dev_run_root_depth (veloc tb : R) (xs : list (dev_in (T:=R))) (s : dev_st (T:=R)) : 0 <= veloc -> Forall day_sane xs ->
+  let ts (d : dev_st (T:=R)) := st_phyllo (ds_stage d) + cg (st_sum (ds_stage d)) 0 in
+  pot_root_depth (root_qrez (root_pow_true veloc tb (ts s))) <= pot_root_depth (root_qrez (root_pow_true veloc tb (ts (dev_run xs s)))).
+Proof.
+  intros Hv H. cbv zeta. apply root_depth_true_mono; [exact Hv | apply dev_run_tempsum; exact H].
+Qed.
+
 (* innermost comparisons first (for closed instances) *)
 Ltac nodec t := lazymatch t with context [Rlt_dec] => fail | context [Rle_dec] => fail | context [Req_EM_T] => fail | _ => idtac end.
 Ltac icases :=
